@@ -41,6 +41,9 @@ def build_layout(variant, frags, T, scratch, tag, salt, rnd, opus_letter="B"):
         assert T == d.vol_len, (T, d.vol_len)
         lay = dict(frags=frags, T=T, cs=0, base=2, maxfiles=31)
     d.flat = [e for fe in ents for e in fe]
+    # a second, different disc for multi-drive invocations (drive 1 under the physical policy)
+    other = discs.build("DFS", [mkdisc.entry("OTHER", length=700, start=100)] if salt % 2 else [], scratch, tag + "-other", nsectors=400, salt=250, title=b"OTHER")
+    d.other = other.path
     return d, lay
 
 
@@ -72,6 +75,26 @@ def observe(dfs, d, lay, scratch, eid):
         total = int(m.group(1), 16) if m else -1
     ev.append(dict(e="space", id=eid, lay=lay, gaps=gaps, total=total, rc=o.rc if o.rc is not None else -9,
                    err=o.err.decode("latin1")[:200]))
+    # space on several drives in one invocation: each section must still be the drive's own gaps (state must not leak)
+    if d.variant != "OPUS":
+        for order in ((d.drive, "1"), ("1", d.drive)):
+            o = common.run([dfs, "--file", d.path, "--file", d.other] + ["space"] + list(order))
+            secs = re.split(r"(?m)^Gap sizes on disc (\d+):\n", o.out.decode("latin1"))
+            mine = None
+            for j in range(1, len(secs) - 1, 2):
+                if secs[j] == d.drive:
+                    mine = secs[j + 1]
+            gaps2, total2 = [-1], -1
+            if mine is not None:
+                lines2 = mine.split("\n")
+                try:
+                    gaps2 = [int(x, 16) for x in lines2[0].split()]
+                except ValueError:
+                    gaps2 = [-1]
+                m2 = re.search(r"Total space free = ([0-9A-F]+) sectors", mine)
+                total2 = int(m2.group(1), 16) if m2 else -1
+            ev.append(dict(e="space", id=eid, lay=lay, gaps=gaps2, total=total2, rc=o.rc if o.rc is not None else -9, multi=" ".join(order),
+                           err=o.err.decode("latin1")[:200]))
     # sector-map
     surf = d.drive.rstrip("ABCDEFGH")
     o = common.run(base + ["sector-map", surf])
